@@ -10,3 +10,4 @@ import BalmProofs.Props.C01
 #print axioms Balm.Impl.mem_reachSet
 #print axioms Balm.Impl.attractors_sound
 #print axioms Balm.Impl.attractors_complete
+#print axioms Balm.Impl.mem_ownAttrs
